@@ -147,17 +147,32 @@ def _violation(key, detail, kind, alias, a, b, got, want):
     return v
 
 
-def confirm(prog, kind, alias, key, detail, cands):
-    """a VC failed: look for an input that reproduces in concrete mode (model first, then the battery).  Raises."""
+def confirm(prog, kind, alias, key, detail, cands, verdict=False, n_random=60):
+    """a VC failed (verdict False: the solver has a counter-model) or got no verdict in time (None): look for an input that gives a wrong
+    result in concrete mode - the model first, then the battery.  Raises Violation if one is found, Inconclusive otherwise."""
     rng = random.Random(int(os.environ.get("VERIF_SEED", "0")) + 13)
-    na, nb = KINDS[kind][:2]
-    for a, b in list(cands) + battery(kind, rng, 60):
+    nb = KINDS[kind][1]
+    for a, b in list(cands) + battery(kind, rng, n_random):
         b = a if (alias == 3 or not nb) and kind != "fpbase_384_montgomery_reduce" else b
         got, want = concrete(prog, kind, alias, a, b), reference(kind, a, b)
         if got != want:
             raise _violation(key, detail, kind, alias, a, b, got, want)
-    raise Inconclusive("%s: VC failed (%s) but neither the solver's model nor the operand battery reproduces a wrong result in the "
-                       "interpreter's concrete mode" % (key, detail))
+    raise Inconclusive("%s: %s - %s, and neither the solver's model nor the operand battery gives a wrong result in the interpreter's concrete mode" % (
+        key, detail, "the solver has a counter-model of this VC" if verdict is False else "the solver gave no verdict in time"))
+
+
+def settle(ok, prog, kind, alias, key, detail, cands=lambda: []):
+    if not ok:
+        confirm(prog, kind, alias, key, detail, cands() if ok is False else [], ok)
+
+
+def precheck(X, prog, kind, alias, key, detail):
+    """carries were dropped that the solver could not prove zero: try the battery before spending solver time on the main VC"""
+    if X.lost_carries:
+        try:
+            confirm(prog, kind, alias, key, detail + _lost(X), [], None, 24)
+        except Inconclusive:
+            pass
 
 
 def _sym_call(prog, kind, alias, timeout_ms):
@@ -182,14 +197,10 @@ def a64_simple(prog, kind, alias, timeout_ms=60000):
             raise Violation(key + ":ret", "%s%s leaves no integer return value in x0 (%r)" % (PFX, kind, x0), {"backend": "aarch64", "routine": PFX + kind})
         O = L.z(lin_sum(L, read_words(ores, 6)))
         vc = z3.Implies(z3.And(*pc) if pc else z3.BoolVal(True), simple_spec(kind, zA, zB, O, L.z(x0)))
-        ok = L.prove(vc, kind)
-        if ok is None:
-            raise Inconclusive("solver unknown on %s" % kind)
-        if not ok:
+        def model():
             env = L.model_for(z3.Not(vc)) or {}
-            a = model_inputs(L, env, "a", 6)
-            confirm(prog, kind, alias, key, "%s%s differs from the specification (alias pattern %d)" % (PFX, kind, alias),
-                    [(a, a if bv is av else model_inputs(L, env, "b", 6))])
+            return [(model_inputs(L, env, "a", 6), model_inputs(L, env, "a" if bv is av else "b", 6))]
+        settle(L.prove(vc, kind), prog, kind, alias, key, "%s%s differs from the specification (alias pattern %d)" % (PFX, kind, alias), model)
     return {"queries": L.queries + X.queries, "solver_s": L.solver_time, "paths": npaths, "functions": [PFX + kind],
             "sample": "%s%s alias=%d: %d path(s), %d instructions, linear-integer VC (result and returned bit) for all 384-bit operands" % (
                 PFX, kind, alias, npaths, X.steps)}
@@ -203,6 +214,13 @@ def _product_form(L, av, bv):
     return want
 
 
+def _product_model(L, ident, same, mod=None):
+    """inputs from a counter-model in which the opaque word products really are products if z3 finds one, else from the linear model"""
+    env = nia_model(L, z3.Not(ident), 10000) or L.model_for(z3.Not(ident)) or {}
+    a, b = model_inputs(L, env, "a", 6), model_inputs(L, env, "a" if same else "b", 6)
+    return [(a % mod, b % mod) if mod else (a, b)]
+
+
 def _lost(X):
     return "; carries dropped without being provably zero: %s" % "; ".join("%#x %s" % c for c in X.lost_carries) if X.lost_carries else ""
 
@@ -210,15 +228,10 @@ def _lost(X):
 def a64_multiply(prog, kind, alias, timeout_ms=60000):
     L, X, av, bv, ores, args, objs = _sym_call(prog, kind, alias, timeout_ms)
     X.run(PFX + kind, args, objs)
+    key, detail = "a64:%s:alias=%d" % (kind, alias), "%s%s: result is not sum a_i*b_j*2^(64(i+j))" % (PFX, kind)
+    precheck(X, prog, kind, alias, key, detail)
     ident = L.eq(lin_sum(L, read_words(ores, 12)), _product_form(L, av, bv))
-    ok = L.prove(ident, "product identity")
-    if ok is None:
-        raise Inconclusive("solver unknown on the product identity of " + kind)
-    if not ok:
-        env = nia_model(L, z3.Not(ident), 20000) or L.model_for(z3.Not(ident)) or {}
-        a = model_inputs(L, env, "a", 6)
-        confirm(prog, kind, alias, "a64:%s" % kind, "%s%s: result is not sum a_i*b_j*2^(64(i+j))%s" % (PFX, kind, _lost(X)),
-                [(a, a if bv is av else model_inputs(L, env, "b", 6))])
+    settle(L.prove(ident, "product identity"), prog, kind, alias, key, detail + _lost(X), lambda: _product_model(L, ident, bv is av))
     return {"queries": L.queries + X.queries, "solver_s": L.solver_time, "paths": 1, "functions": [PFX + kind],
             "sample": "%s%s%s: %d instructions, %d dropped carries proved zero, identity over %d opaque word products" % (
                 PFX, kind, " (a and b the same object)" if alias == 3 else "", X.steps, X.proved_carries, len(L.products))}
@@ -242,7 +255,7 @@ def _definition(L1, L2, defs, t):
     return defs[name][1] if name in defs else None
 
 
-def a64_montgomery(prog, kind, alias=0, timeout_ms=120000):
+def a64_montgomery(prog, kind, alias=0, timeout_ms=60000):
     """montgomery_reduce, and the fused multiply / square (product stage, reduction stage, final subtraction)"""
     fused = kind != "fpbase_384_montgomery_reduce"
     key, sym = "a64:%s:alias=%d" % (kind, alias), PFX + kind
@@ -270,6 +283,8 @@ def a64_montgomery(prog, kind, alias=0, timeout_ms=120000):
         for w in words_of(a0 * b0, 12):
             hit = [r for r, v in regs0.items() if isinstance(v, LV) and v.c == w]
             guess.append(hit[0] if len(hit) == 1 else None)
+        if None in guess:
+            confirm(prog, kind, alias, key + ":product", "%s: the words of a*b are not in registers when the reduction starts (concrete probe)" % sym, [(a0, b0)], None)
 
         def on_cut(X_, cut):
             """stage boundary: the value handed to the reduction is only known to be <= (p-1)^2 (product bound lemma)"""
@@ -277,7 +292,7 @@ def a64_montgomery(prog, kind, alias=0, timeout_ms=120000):
                 return
             ws = [X_.regs.get(g) for g in guess]
             if not all(isinstance(w, LV) for w in ws):
-                raise Inconclusive("cannot locate the product words in the registers at the first multiplication by inv")
+                raise Inconclusive("the registers that held the product words on the concrete probe hold no words on the symbolic run")
             handed["after"] = lin_sum(X_.L, ws)
             handed["before"] = [_definition(cut["L"], X_.L, cut["defs"], w) for w in ws]
             X_.L.solver.add(X_.L.z(handed["after"]) <= (Q - 1) * (Q - 1))
@@ -286,19 +301,14 @@ def a64_montgomery(prog, kind, alias=0, timeout_ms=120000):
     paths = [(pc, read_words(ores, 6)) for pc, _ in X.explore(sym, args, objs)]
     if [c["why"] for c in X.cuts] != (["first multiplication by the constant %#x" % QINV64] if fused else []) + ["first compare"]:
         confirm(prog, kind, alias, key + ":shape", "%s: expected cut points (first multiplication by inv, first compare) not reached" % sym, [])
+    precheck(X, prog, kind, alias, key + ":identity", "%s: wrong result" % sym)
     cut = X.cuts[-1]
     Lm, Ls, defs = cut["L"], X.L, cut["defs"]          # Lm: context of the reduction prefix; Ls: context of the compare/subtract suffix
     if fused:
         # stage 1 (context L): the words handed to the reduction are the 768-bit product of a and b
         ident1 = L.eq(lin_sum(L, handed["before"]), _product_form(L, av, bv))
-        ok = L.prove(ident1, "product identity")
-        if ok is None:
-            raise Inconclusive("solver unknown on the product identity of " + sym)
-        if not ok:
-            env = nia_model(L, z3.Not(ident1), 20000) or L.model_for(z3.Not(ident1)) or {}
-            a = model_inputs(L, env, "a", 6) % Q
-            confirm(prog, kind, alias, key + ":product", "%s: the 768-bit value handed to the reduction is not sum a_i*b_j*2^(64(i+j))%s" % (sym, _lost(X)),
-                    [(a, a if bv is av else model_inputs(L, env, "b", 6) % Q)])
+        settle(L.prove(ident1, "product identity"), prog, kind, alias, key + ":product",
+               "%s: the 768-bit value handed to the reduction is not sum a_i*b_j*2^(64(i+j))%s" % (sym, _lost(X)), lambda: _product_model(L, ident1, bv is av, Q))
         A = handed["after"]
     # the no-subtract path returns the unreduced words T unchanged: this identifies them among the havocked variables
     sigma = None
@@ -311,29 +321,21 @@ def a64_montgomery(prog, kind, alias=0, timeout_ms=120000):
     ims = [lv for stage, lv in X.inv_muls if stage == len(X.cuts) - 1]
     Tl = lin_sum(Lm, [_definition(Lm, Ls, defs, w) for w in sigma])
     ident = Lm.z(Tl) * R384 == Lm.z(A) + Lm.z(lin_sum(Lm, ims)) * Q
-    ok = Lm.prove(ident, "montgomery identity") if len(ims) == 6 else False
-    if ok is None:
-        raise Inconclusive("solver unknown on the Montgomery identity")
-    if not ok:
-        env = Lm.model_for(z3.Not(ident)) or {}
-        confirm(prog, kind, alias, key + ":identity", "%s: T*2^384 != a + U*p at the first compare (%d multiplications by inv)%s" % (sym, len(ims), _lost(X)),
-                [] if fused else [(model_inputs(Lm, env, "a", 12), 0)])
+    detail = "%s: T*2^384 != a + U*p at the first compare (%d multiplications by inv)" % (sym, len(ims))
+    settle(Lm.prove(ident, "montgomery identity") if len(ims) == 6 else False, prog, kind, alias, key + ":identity", detail + _lost(X),
+           lambda: [] if fused else [(model_inputs(Lm, Lm.model_for(z3.Not(ident)) or {}, "a", 12), 0)])
     Lm.solver.add(ident)
-    if not Lm.prove(Lm.z(Tl) < 2 * Q, "T < 2p"):
-        confirm(prog, kind, alias, key + ":range", "%s: cannot establish T < 2p at the first compare%s" % (sym, _lost(X)), [])
+    settle(Lm.prove(Lm.z(Tl) < 2 * Q, "T < 2p"), prog, kind, alias, key + ":range", "%s: T < 2p does not hold at the first compare%s" % (sym, _lost(X)))
     T2 = Ls.z(lin_sum(Ls, sigma))
     Ls.solver.add(T2 < 2 * Q)
     for pc, out in paths:
         O = Ls.z(lin_sum(Ls, out))
         vc = z3.Implies(z3.And(*pc) if pc else z3.BoolVal(True), z3.If(T2 >= Q, O == T2 - Q, O == T2))
         ok = Ls.prove(vc, "final subtraction")
-        if ok is None:
-            raise Inconclusive("solver unknown on the final subtraction")
         if not ok:
-            env = Ls.model_for(z3.Not(vc)) or {}
-            tval = Ls.evaluate(lin_sum(Ls, sigma), env)
-            confirm(prog, kind, alias, key + ":final-subtract", "%s: final conditional subtraction is wrong for the unreduced value T=%#x" % (sym, tval),
-                    [] if fused else [(tval * R384 if tval < Q else tval * R384 - (R384 - 1) * Q, 0)])
+            tval = Ls.evaluate(lin_sum(Ls, sigma), Ls.model_for(z3.Not(vc)) or {n: 0 for n in Ls.names}) if ok is False else 0
+            settle(ok, prog, kind, alias, key + ":final-subtract", "%s: final conditional subtraction is wrong for the unreduced value T=%#x" % (sym, tval),
+                   lambda: [] if fused else [(tval * R384 if tval < Q else tval * R384 - (R384 - 1) * Q, 0)])
     ctxs = [L] + [c["L"] for c in X.cuts[1:]] + [Ls]
     return {"queries": queries + X.queries + sum(c.queries for c in ctxs), "solver_s": sum(c.solver_time for c in ctxs), "paths": len(paths), "functions": [sym],
             "sample": "%s alias=%d: %d instructions, %d carries proved zero, cuts at %s, %d suffix paths" % (
